@@ -12,6 +12,8 @@ outside the inserted region equals the rendering with the harmless value.
 """
 from __future__ import annotations
 
+from harness import REPO_SRC  # noqa: E402
+
 import itertools
 import json
 import multiprocessing
@@ -146,7 +148,7 @@ def model_run(ctx, maxlen):
 
 def _render_site(args):
     site, strings = args
-    sys.path.insert(0, "/repo/src")
+    sys.path.insert(0, REPO_SRC)
     from chameleon import PageTemplate, PageTextTemplate
     src = SITES[site]
     T = PageTextTemplate if site == "textmode" else PageTemplate
